@@ -92,6 +92,22 @@ theorem nr_genLoop {hd : LoopHdr} (hh : LoopHdrOK hd) (body : Code) (hb : nr bod
   | count n => exact nr_assembleLoop _ _ _ _ _ (nr_genRv hh _) rfl rfl hb rfl
   | _ => exact absurd hh (by simp [LoopHdrOK])
 
+theorem nr_genRv_simple {a : Rv} (ha : SimpleArg a) (d : Dst) : (genRv a (.to d)).all Instr.plainI = true := by
+  cases ha with
+  | lit v => simp only [genRv]; rfl
+  | var n => simp only [genRv]; rfl
+  | reg r => simp only [genRv]; split <;> rfl
+
+theorem nr_genParams : ∀ (ps : List String) (as : Args), SimpleArgs as →
+    (genParams ps as).all Instr.plainI = true
+  | [], _, _ => by simp only [genParams]; rfl
+  | _ :: _, .nil, _ => by simp only [genParams]; rfl
+  | p :: ps, .cons a rest, h => by
+    cases h with
+    | cons ha hrest =>
+      simp only [genParams, List.all_append, nr_genRv_simple ha, nr_genParams ps rest hrest,
+        Bool.true_and, Bool.and_true]; rfl
+
 theorem plain_genName (n : NameSpec) : Instr.plainI (genName n) = true := by cases n <;> rfl
 theorem plain_opcodeOf (k : ActKind) : Instr.plainI (opcodeOf k) = true := by cases k <;> rfl
 
@@ -124,8 +140,12 @@ mutual
     | .assign n v, h => by simp only [genStmt, nr_ins]; exact nr_genRv h _
     | .defMacro n v, _ => by simp only [genStmt, nr_ins]; rfl
     | .defRoutine _ _ _, h => absurd h (by simp [FragStmt])
-    | .call _ _ _, h => absurd h (by simp [FragStmt])
-    | .ret _, h => absurd h (by simp [FragStmt])
+    | .call g ps as, h => by
+      simp only [genStmt, nr_ins, genCall, List.all_append, nr_genParams ps as h.1, Bool.and_true]; rfl
+    | .ret none, _ => by simp only [genStmt, nr_ins]; rfl
+    | .ret (some rv), h => by
+      have h : RvOK rv := h
+      simp only [genStmt, nr_ins, List.all_append, nr_genRv h, Bool.true_and]; rfl
     | .ite c t none, h => by
       simp only [genStmt, genIf, nr_append, nr_ins, nr_genRv h.1, nr_genBlock t h.2.1, Bool.true_and,
         Bool.and_true]
@@ -260,6 +280,28 @@ theorem load_fragment (b : Block) (hb : FragBlock b) (code : List Instr)
   have hres : resolve (genBlock b) 0 (0 : Nat) = code := resolve_of_mapM _ _ hcode 0 _
   rw [← hres, all_resolve]
   exact nr_genBlock b hb
+
+/-- a block of the fragment defines no routines -/
+theorem collect_frag : ∀ (b : Block), FragBlock b → Sem.collect b = []
+  | .nil, _ => rfl
+  | .cons st rest, h => by
+    have hr := collect_frag rest h.2
+    cases st with
+    | defRoutine n ps body => exact absurd h.1 (by simp [FragStmt])
+    | ite c t e =>
+      cases e with
+      | none =>
+        have ht := collect_frag t h.1.2.1
+        simp only [Sem.collect, ht, hr, List.append_nil]
+      | some e =>
+        have ht := collect_frag t h.1.2.1
+        have he := collect_frag e h.1.2.2
+        simp only [Sem.collect, ht, he, hr, List.append_nil]
+    | repeat_ hd body =>
+      have hb := collect_frag body h.1.2
+      simp only [Sem.collect, hb, hr, List.append_nil]
+    | _ => simp only [Sem.collect, hr]
+
 
 end Sim
 
